@@ -45,6 +45,9 @@
 //!   the growth test, for every collection that actually runs (forced or not).
 //! * `verif_gc_count()` — collections that actually ran; `verif_gc_forced_count()`.
 //! * `verif_instructions()` — instruction boundaries passed in `run_count`.
+//! * `verif_max_alloc_per_tick()` — the largest increase of the used-cell count seen
+//!   between two consecutive instruction boundaries (compilation of the next form
+//!   included), for bounding the allocation between two collection points.
 //!
 //! Stack high-water mark (per thread, not per Vm: `Stack` derives `PartialEq`,
 //! which continuations compare by, so the counter cannot live in the struct)
@@ -77,6 +80,8 @@ pub struct VerifState {
     instructions: u64,
     gc_count: u64,
     gc_forced_count: u64,
+    last_used: usize,
+    max_alloc_per_tick: usize,
     observer: Option<GcObserver>,
 }
 
@@ -238,6 +243,10 @@ impl Vm {
         self.verif.instructions
     }
 
+    pub fn verif_max_alloc_per_tick(&self) -> usize {
+        self.verif.max_alloc_per_tick
+    }
+
     /// One collection now, whatever the utilisation.
     pub fn verif_force_gc(&mut self) {
         self.verif.force_next = true;
@@ -248,6 +257,11 @@ impl Vm {
     /// Called by `run_count` at every instruction boundary.
     pub(crate) fn verif_tick(&mut self) {
         self.verif.instructions += 1;
+        let used = self.heap.used_size();
+        if used > self.verif.last_used && used - self.verif.last_used > self.verif.max_alloc_per_tick {
+            self.verif.max_alloc_per_tick = used - self.verif.last_used;
+        }
+        self.verif.last_used = used;
         let mut due = false;
         if let Some(n) = self.verif.gc_every {
             if self.verif.instructions % (n as u64) == 0 {
